@@ -24,9 +24,11 @@ def frame_positions(frame, L):
     return [int(i) for i in fr]
 
 
-def make_set(rng, n, L, W, id0):
+def make_set(rng, n, L, W, id0, sample_dtype=None):
     import scared
     samples, v = gen_arrays(rng, n, L, W)
+    if sample_dtype:
+        samples = samples.astype(sample_dtype)          # the same values in another storage type (e.g. big-endian files)
     ids = np.arange(id0, id0 + n, dtype='int64')
     ths = scared.traces.read_ths_from_ram(samples=samples, v=v, id=ids)
     return ths, samples, v, ids
@@ -58,35 +60,37 @@ CHAINS = [[], ['square'], ['plus1', 'twice'], ['twice', 'plus1'], ['square', 'pl
 KINDS = ['CPA', 'DPA', 'ANOVA', 'NICV', 'SNR', 'MIA']
 
 
-def selection(mode, layout='C', nclass=9):
+def selection(mode, layout='C', nclass=9, wide=False):
     """layout 'T': the attack function builds its output guess-major and returns a transposed view (not C-contiguous), the way the
     ready-made selection functions do; the values are the same"""
     import scared
     if mode == 'attack':
         @scared.attack_selection_function(guesses=range(NG))
         def sf(v, guesses):
+            k_, dt_ = (300, 'uint16') if wide else (1, 'uint8')        # wide: intermediate values well beyond one byte (up to 2400)
             if layout == 'T':
-                buf = np.empty((len(guesses), v.shape[0], v.shape[1]), dtype='uint8')
+                buf = np.empty((len(guesses), v.shape[0], v.shape[1]), dtype=dt_)
                 for g in guesses:
-                    buf[g] = (v + g) % nclass
+                    buf[g] = ((v + g) % nclass).astype(dt_) * k_
                 return buf.swapaxes(0, 1)
-            out = np.empty((v.shape[0], len(guesses), v.shape[1]), dtype='uint8')
+            out = np.empty((v.shape[0], len(guesses), v.shape[1]), dtype=dt_)
             for g in guesses:
-                out[:, g, :] = (v + g) % nclass
+                out[:, g, :] = ((v + g) % nclass).astype(dt_) * k_
             return np.asfortranarray(out) if layout == 'F' else out      # 'F': Fortran-contiguous, as fancy indexing of the words axis yields
         return sf
 
     @scared.reverse_selection_function
     def rsf(v):
-        return v % nclass
+        return (v % nclass).astype('uint16') * 300 if wide else v % nclass
     return rsf
 
 
-def build(kind, mode, precision, convergence_step=None, layout='C', nclass=9, declared=None):
+def build(kind, mode, precision, convergence_step=None, layout='C', nclass=9, declared=None, wide=False):
     """(analysis object, factory of the matching standalone distinguisher)"""
     import scared
-    sf = selection(mode, layout, nclass)
-    model = {'CPA': scared.HammingWeight(), 'DPA': scared.Monobit(0)}.get(kind, scared.Value())
+    wide = wide and kind == 'CPA'                  # values beyond one byte with the Value model (Pearson takes any values; classes / bits do not)
+    sf = selection(mode, layout, nclass, wide)
+    model = {'CPA': scared.Value() if wide else scared.HammingWeight(), 'DPA': scared.Monobit(0)}.get(kind, scared.Value())
     kw = {}
     dkw = {}
     if kind in ('ANOVA', 'NICV', 'SNR', 'MIA'):
